@@ -162,6 +162,7 @@ theorem asg_refl : ∀ (n : Nat) (a : Ty), a.w ≤ n → Ty.WF cfg a → a.NoAli
     | float lo hi => apply viaRecv rfl; unfold asgRecv; simp
     | bool b => apply viaRecv rfl; unfold asgRecv; cases b <;> simp
     | tspan r => apply viaRecv rfl; unfold asgRecv; simp [Rng.sub]
+    | tstamp r => apply viaRecv rfl; unfold asgRecv; simp [Rng.sub]
     | strSz r => apply viaRecv rfl; unfold asgRecv; simp [Rng.sub]
     | strVal s => apply viaRecv rfl; unfold asgRecv; simp
     | enum vs ci =>
